@@ -1638,7 +1638,7 @@ def environment_level(prop: str, chk, tier: str, seed: int) -> Dict[str, Any]:
     from . import common, tlc
 
     common.boot()
-    stats: Dict[str, Any] = {}
+    stats: Dict[str, Any] = {"drift": {DRIFT_FOLDER: 0, DRIFT_FOLDER_OS: 0}}
     per_variant: List[Dict[str, Any]] = []
     drift: List[str] = []
     tlc_wall = [0.0]
